@@ -9,6 +9,10 @@
      N:<mb>:<uidv>:<uidnext>             STATUS / SELECT
      F:<mb>:<uidv>:<uidnext>:<uid>=<marker>,..|-     fresh full listing
      V:<mb>:<uidv>:<uid>=<marker>,..|-               listing in a long-lived session
+     W:<mb>:<uidv>:<exists>:<uidnext>:<uid>=<marker>,..|-:<u1,u2,..|->    SELECT/EXAMINE raced by a second party
+                                         (own response, the view it opened, UIDs the second party added)
+     T:<mb>:<uidv>:<messages>:<uidnext>:<uid>=<marker>,..|-:<u1,..|->      STATUS raced by a second party
+                                         (own response, fresh listing right after, UIDs the second party added)
 
    Answer: `ok trivial` | `ok nontrivial k=v …` | `violation property cause=<label> …` |
    `violation model cause=<label> …` (the log contradicts a prediction of the UidSeq / UidValidity
@@ -59,13 +63,27 @@ def parseEv (w : String) : Option Ev :=
     let v ← v.toNat?
     let ps ← parsePairs ps
     pure (.view n v ps)
+  | ["W", n, v, e, x, ps, inj] => do
+    let v ← v.toNat?
+    let e ← e.toNat?
+    let x ← x.toNat?
+    let ps ← parsePairs ps
+    let inj ← parseNats inj
+    pure (.selectRace n v e x ps inj)
+  | ["T", n, v, m, x, ps, inj] => do
+    let v ← v.toNat?
+    let m ← m.toNat?
+    let x ← x.toNat?
+    let ps ← parsePairs ps
+    let inj ← parseNats inj
+    pure (.statusRace n v m x ps inj)
   | _ => none
 
 def verdict (st : St) : String :=
   if !invariant st then "violation model cause=model-invariant-broken (the judge's own invariant over the final state does not hold)"
   else if st.assigned < 2 then "ok trivial"
   else
-    s!"ok nontrivial assigned={st.assigned} announced={st.announced} confirmed={st.confirmed} topgone={st.topGone} afterrestart={st.afterRestart} restarts={st.restarts} recreated={st.recreated} bumps={st.bumps} renames={st.renames} boxes={st.boxes.length}"
+    s!"ok nontrivial assigned={st.assigned} announced={st.announced} confirmed={st.confirmed} topgone={st.topGone} afterrestart={st.afterRestart} restarts={st.restarts} recreated={st.recreated} bumps={st.bumps} renames={st.renames} boxes={st.boxes.length} raced={st.raced} racedseen={st.racedSeen}"
 
 def judgeUids (args : List String) : String :=
   let words := args.filter (· != "")
@@ -106,5 +124,36 @@ def judgeUids (args : List String) : String :=
   "F:b:100:3:1=m1", "M:b:a", "F:a:100:3:1=m1", "A:a:100:3:m3", "F:a:100:4:1=m1,3=m3"]).startsWith "ok nontrivial"
 #guard (judgeUids ["K:a:100", "A:a:100:1:m1", "F:a:100:2:1=m1", "M:a:b", "A:b:100:2:m2", "F:b:100:3:1=m1,2=m2",
   "F:b:100:3:1=m1", "M:b:a", "A:a:100:2:m3"]).startsWith "violation property cause=uid-denotes-two-messages"
+
+-- raced SELECT: the second party's APPEND ran after the mailbox was looked up and before its messages were loaded;
+-- UIDNEXT read late (as the code does) is fine, UIDNEXT read early is not
+#guard (judgeUids ["K:a:100", "A:a:100:1:m1", "F:a:100:2:1=m1", "W:a:100:2:3:1=m1,2=m2:2", "A:a:100:2:m2",
+  "F:a:100:3:1=m1,2=m2"]).startsWith "ok nontrivial"
+#guard (judgeUids ["K:a:100", "A:a:100:1:m1", "F:a:100:2:1=m1", "W:a:100:2:2:1=m1,2=m2:2", "A:a:100:2:m2",
+  "F:a:100:3:1=m1,2=m2"]).startsWith "violation property cause=select-uidnext-not-above-view"
+-- the second party ran after the response was built: the view shows its message beyond EXISTS, UIDNEXT is the old one
+#guard (judgeUids ["K:a:100", "A:a:100:1:m1", "F:a:100:2:1=m1", "W:a:100:1:2:1=m1,2=m2:2", "A:a:100:2:m2",
+  "F:a:100:3:1=m1,2=m2"]).startsWith "ok nontrivial"
+-- … or before the messages were loaded but UIDNEXT already counts it while the view does not show it yet
+#guard (judgeUids ["K:a:100", "A:a:100:1:m1", "F:a:100:2:1=m1", "W:a:100:1:3:1=m1:2", "A:a:100:2:m2",
+  "F:a:100:3:1=m1,2=m2"]).startsWith "ok nontrivial"
+#guard (judgeUids ["K:a:100", "A:a:100:1:m1", "F:a:100:2:1=m1", "W:a:100:1:2:1=m1,2=m2:-"]).startsWith
+  "violation property cause=select-view-unexplained"
+#guard (judgeUids ["K:a:100", "A:a:100:1:m1", "F:a:100:2:1=m1", "W:a:100:3:4:1=m1,2=m2:2"]).startsWith
+  "violation property cause=select-exists-above-view"
+-- raced STATUS
+#guard (judgeUids ["K:a:100", "A:a:100:1:m1", "F:a:100:2:1=m1", "T:a:100:2:3:1=m1,2=m2:2", "A:a:100:2:m2",
+  "F:a:100:3:1=m1,2=m2"]).startsWith "ok nontrivial"
+#guard (judgeUids ["K:a:100", "A:a:100:1:m1", "F:a:100:2:1=m1", "T:a:100:1:3:1=m1,2=m2:2", "A:a:100:2:m2",
+  "F:a:100:3:1=m1,2=m2"]).startsWith "ok nontrivial"
+#guard (judgeUids ["K:a:100", "A:a:100:1:m1", "F:a:100:2:1=m1", "T:a:100:2:2:1=m1,2=m2:2", "A:a:100:2:m2"]).startsWith
+  "violation property cause=status-uidnext-not-above-counted"
+#guard (judgeUids ["K:a:100", "A:a:100:1:m1", "F:a:100:2:1=m1", "T:a:100:3:4:1=m1,2=m2:2"]).startsWith
+  "violation property cause=status-messages-unexplained"
+-- a raced response may not go below what was announced before, and later ones not below it
+#guard (judgeUids ["K:a:100", "A:a:100:1:m1", "A:a:100:2:m2", "F:a:100:3:1=m1,2=m2", "F:a:100:3:1=m1",
+  "W:a:100:1:2:1=m1:-"]).startsWith "violation property cause=uidnext-not-above-assigned"
+#guard (judgeUids ["K:a:100", "A:a:100:1:m1", "F:a:100:2:1=m1", "T:a:100:1:5:1=m1:-", "N:a:100:2"]).startsWith
+  "violation property cause=uidnext-decreased"
 
 end Gluon.Driver.DJudgeUids
